@@ -537,8 +537,78 @@ def census():
             for chain, kind, st in parsed[rel][1]:
                 if kind == "class" and chain and chain[-1] != cls and re.search(r"\b" + member + r"\s*$", st) and "(" not in st and "&" not in st and "*" not in st:
                     raise AnchorError("gen_thr: owner anchor: %s also declared in class %s (%s)" % (member, chain[-1], rel))
-    return {"files": files, "mutables": sorted(set(mutables)), "casts": sorted(casts.items()),
+    lookups = const_lookups(parsed, all_funcs)
+    return {"files": files, "lookups": lookups, "mutables": sorted(set(mutables)), "casts": sorted(casts.items()),
             "statics": out_statics, "lstatics": sorted(set(lstatics)), "owners": owners}
+
+
+def const_lookups(parsed, all_funcs):
+    """(e) every const (or static-member) lookup on a data member whose type is XalanMap / XalanSet / XalanList
+    (directly or through a typedef): XalanList::begin()/end() const - hence XalanMap::begin()/end()/find() const
+    and XalanSet - allocate the list head on first use when the container was never touched.  Entries:
+    (class, member, kind, function, operations, guarded) where guarded = the body tests member.empty() before
+    the first lookup (XalanMap::empty() reads m_size only)."""
+    tdefs = {}
+    PFX = r"(?:(?:public|private|protected)\s*:\s*)*"
+    for f, (t, stmts, funcs) in parsed.items():
+        for chain, kind, st in stmts:
+            m = re.match(PFX + r"typedef\s+(?:typename\s+)?Xalan(Map|List|Set)\s*<.*>\s*(\w+)$", st, re.S)
+            if m:
+                tdefs[m.group(2)] = m.group(1)
+    for _ in range(3):
+        for f, (t, stmts, funcs) in parsed.items():
+            for chain, kind, st in stmts:
+                m = re.match(PFX + r"typedef\s+(?:typename\s+)?(?:\w+::)*(\w+)\s+(\w+)$", st, re.S)
+                if m and m.group(1) in tdefs and m.group(2) not in tdefs:
+                    tdefs[m.group(2)] = tdefs[m.group(1)]
+    if len(tdefs) < 10:
+        raise AnchorError("gen_thr: container typedefs not recognised any more (%d found)" % len(tdefs))
+    members = {}
+    for f, (t, stmts, funcs) in parsed.items():
+        for chain, kind, st in stmts:
+            if kind != "class" or not chain or "(" in st:
+                continue
+            s2 = re.sub(r"^" + PFX, "", st)
+            m = re.match(r"(?:mutable\s+|const\s+|static\s+)*(?:\w+::)*(\w+)(\s*<.*>)?\s+(\w+)$", s2, re.S)
+            if not m:
+                continue
+            ty, name = m.group(1), m.group(3)
+            k = tdefs.get(ty) if not m.group(2) else (ty[5:] if re.match(r"Xalan(Map|List|Set)$", ty) else None)
+            if k:
+                members[(chain[-1], name)] = k
+    out = []
+    for (cls, name), k in sorted(members.items()):
+        ops = r"find|begin|end|rbegin|rend|count" if k != "List" else r"find|begin|end|rbegin|rend|front|back|empty|size"
+        rx = re.compile(r"(?<![\w.>])(?:\w+::)?" + re.escape(name) + r"\s*\.\s*(" + ops + r")\s*\(")
+        rx_arg = re.compile(r"[(,]\s*" + re.escape(name) + r"\s*[,)]")
+        for rel, q, cst, body in all_funcs:
+            parts = q.split("::")
+            if cls not in parts[:-1]:
+                continue
+            if not cst and not name.startswith("s_"):
+                continue
+            b = body[body.index("{"):] if "{" in body else body
+            hits = [(m.start(), m.group(1)) for m in rx.finditer(b)] + [(m.start(), "arg") for m in rx_arg.finditer(b)]
+            if not hits:
+                continue
+            first = min(h[0] for h in hits)
+            g = re.search(r"(?<![\w.>])" + re.escape(name) + r"\s*\.\s*empty\s*\(\s*\)", b[:first]) if k != "List" else None
+            # primed: a constructor or postConstruction of the class already takes begin()/end() or inserts
+            primed = False
+            for rel2, q2, cst2, body2 in all_funcs:
+                p2 = q2.split("::")
+                if cls in p2[:-1] and (p2[-1] == cls or p2[-1] == "postConstruction") and \
+                        re.search(r"(?<![\w.>])" + re.escape(name) + r"\s*(\.\s*(begin|end|insert|addAssociation)\s*\(|\[)", body2):
+                    primed = True
+            fn = parts[-1]
+            callers = "-"
+            if fn not in ("begin", "end", "find", "operator", "size", "empty"):
+                cs = sorted({q2 for rel2, q2, cst2, body2 in all_funcs
+                             if q2 != q and re.search(r"(?<![\w~])" + re.escape(fn) + r"\s*\(", body2[body2.index("{"):] if "{" in body2 else "")})
+                callers = ";".join(cs) if len(cs) <= 4 else "many(%d)" % len(cs)
+            out.append((cls, name, k, q + (" const" if cst else ""), ",".join(sorted(set(h[1] for h in hits))),
+                        ("guarded" if g else "unguarded") + ("+primed" if primed else ""), callers))
+    return sorted(set(out))
 
 
 def gen_thr():
@@ -560,6 +630,9 @@ def gen_thr():
     o.append(" ].\n\n(* (facility, member, declaring class): where per-transformation state lives *)\n"
              "Definition census_owner : list (string * string * string) :=\n  [ ")
     o.append(";\n    ".join("(%s, %s, %s)" % (coq_str(a), coq_str(b), coq_str(n)) for a, b, n in c["owners"]))
+    o.append(" ].\n\n(* (class, container member, kind, const/static-member function, operations, guarded by member.empty()? / primed by ctor|postConstruction?, callers of the function) *)\n"
+             "Definition census_constlookup : list (string * string * string * string * string * string * string) :=\n  [ ")
+    o.append(";\n    ".join("(" + ", ".join(coq_str(x) for x in e) + ")" for e in c["lookups"]))
     o.append(" ].\n")
     facts = {"files": len(c["files"]), "mutable": len(c["mutables"]), "const_cast": len(c["casts"]),
              "static": len(c["statics"]), "localstatic": len(c["lstatics"])}
@@ -572,7 +645,7 @@ if __name__ == "__main__":
     import sys, json
     c = census()
     if len(sys.argv) > 1 and sys.argv[1] == "dump":
-        for k in ("mutables", "casts", "statics", "lstatics", "owners"):
+        for k in ("mutables", "casts", "statics", "lstatics", "owners", "lookups"):
             print("==", k, len(c[k]))
             for e in c[k]:
                 print("  ", e)
